@@ -425,6 +425,36 @@ func finishRun(prop, tier string, seed int64, specs []*HarnessSpec, units []unit
 		reported = append(reported, fmt.Sprintf("VIOLATION property=%s replay=%s", prop, path))
 		fmt.Printf("  %s %q at %s in %s (%s)\n", v.Kind, v.Msg, v.Site, v.Harness, detail)
 	}
+	// translator validation: native vs. engine on random concrete vectors
+	validated := 0
+	if !noReplay && os.Getenv("VCHECK_NOVALIDATE") == "" {
+		if nb == nil {
+			nb, _ = newNativeBuilder()
+		}
+		vex, err := NewExec(loaded.prog, "z3", 20000)
+		if nb != nil && err == nil {
+			nvec := 6
+			if tier == "thorough" {
+				nvec = 30
+			}
+			if v := os.Getenv("VCHECK_NVEC"); v != "" {
+				fmt.Sscan(v, &nvec)
+			}
+			done := map[string]int{}
+			for _, u := range units {
+				if done[u.spec.Fn] >= 3 {
+					continue // at most three units per harness
+				}
+				done[u.spec.Fn]++
+				nv, mism := validateHarness(nb, vex, loaded, u, nvec, seed)
+				validated += nv
+				for _, m := range mism {
+					inconclusive = append(inconclusive, "translator validation mismatch: "+m)
+				}
+			}
+			vex.Close()
+		}
+	}
 	if nb != nil {
 		nb.Close()
 	}
@@ -470,7 +500,7 @@ func finishRun(prop, tier string, seed int64, specs []*HarnessSpec, units []unit
 	cov := map[string]interface{}{
 		"states":                        npaths,
 		"transitions":                   instrs,
-		"traces_validated_against_impl": 0,
+		"traces_validated_against_impl": validated,
 		"samples":                       samples,
 		"explanation":                   explanationOf(prop),
 		"functions_encoded":             fl,
